@@ -152,6 +152,8 @@ inductive PolicyKind where
 
 structure RpcInput where
   kind : PolicyKind
+  /-- `Config.Tracing` of the serving peer (the other configuration field its RPC server depends on) -/
+  tracing : Bool
   ts : TrustSetting
   self : Nat
   caller : Caller
